@@ -45,7 +45,13 @@ func (bi *BnInt) setHexString(s string) error {
 		return fmt.Errorf("arg failed")
 	}
 	buf := s[len(PREFIX):]
-	bi.v.SetString(buf[:], 16)
+	if _, ok := bi.v.SetString(buf[:], 16); !ok {
+		// nothing, or something that is not a hex number: the value must not keep what it held before
+		bi.v.SetInt64(0)
+		if len(buf) != 0 {
+			return fmt.Errorf("arg failed")
+		}
+	}
 	return nil
 }
 
